@@ -282,6 +282,9 @@ def finish_canaries(unit, workdir, ur, prepared, r):
     g, path, expect = prepared
     if r.json is None:
         raise Undecided("unit %s canaries: no verifier result: %s" % (unit.name, (r.raw_stderr or "")[-300:]))
+    bad = [d for d in r.diags if not verus.is_verification_failure(d)]
+    if bad or r.verified is None:
+        raise Undecided("unit %s canaries: canary file did not compile: %s" % (unit.name, [d.get("message") for d in bad][:3]))
     seen = set()
     for d in r.diags:
         if "assertion failed" not in d.get("message", ""):
